@@ -395,10 +395,12 @@ func (w *world) deleteUsed(tp *sim.Tape) {
 	d.SetGroupVersionKind(widgetGK.WithVersion(ver))
 	d.SetName("db")
 	err := w.direct.Delete(context.Background(), d)
+	lastPolicy := string(metav1.DeletePropagationBackground) // what a request without a policy means
 	if len(opts) > 0 {
 		// (the first attempt above used default options; try the drawn ones too when it was refused)
 		if err != nil {
 			err = w.direct.Delete(context.Background(), d, opts...)
+			lastPolicy = string(*(&client.DeleteOptions{}).ApplyOptions(opts).PropagationPolicy)
 		}
 	}
 	w.deletes++
@@ -435,6 +437,12 @@ func (w *world) deleteUsed(tp *sim.Tape) {
 		ann := (&unstructured.Unstructured{Object: after}).GetAnnotations()["usage.crossplane.io/deletion-attempt-with-policy"]
 		if ann == "" {
 			w.S.Violate("C19/refused-delete-not-recorded", fmt.Sprintf("DELETE Widget db (%s) was refused but the attempt was not recorded on the resource", ver))
+		} else if ann != lastPolicy {
+			// every refused attempt is recorded: the record is the policy of the
+			// latest refused request (it is what the delayed deletion replays)
+			w.S.Violate("C19/refused-delete-not-recorded/stale-policy", fmt.Sprintf("DELETE Widget db (%s, policy %s) was refused but the resource still records an earlier attempt (%s)", ver, lastPolicy, ann))
+		} else {
+			w.S.Probe("refused-delete-recorded-with-its-policy/" + lastPolicy)
 		}
 	case len(naming) == 0:
 		w.S.Probe("delete-of-unused-resource")
@@ -555,6 +563,17 @@ func (w *world) onLog(e *simapi.LogEntry) {
 			composed := (&unstructured.Unstructured{Object: e.Before}).GetLabels()["crossplane.io/composite"] != ""
 			if by != "" && composed {
 				w.S.Probe("composed-usage-finalized")
+				// the reconcile that lets the Usage go has looked for the using resource
+				// (by type and name, as spec.by identifies it) and found none
+				for i := len(w.Store.Log) - 1; i >= 0 && i > len(w.Store.Log)-400; i-- {
+					l := w.Store.Log[i]
+					if l.Read && l.TaskID == e.TaskID && l.Verb == "get" && l.Key.Kind == "Gadget" && l.Key.Name == by && l.Injected == "" {
+						if l.Err == nil && l.After != nil {
+							w.S.Violate("C08/composed-usage-finalized-before-user-gone", fmt.Sprintf("composed Usage %s lost its finalizer in a reconcile that had just read its using resource %s (it exists)", e.Key.Name, by))
+						}
+						break
+					}
+				}
 				// the using resource the Usage was bound to (by UID; a new object of
 				// the same name is a different resource)
 				for _, o := range (&unstructured.Unstructured{Object: e.Before}).GetOwnerReferences() {
